@@ -1,4 +1,8 @@
 
+val implb : bool -> bool -> bool
+
+val xorb : bool -> bool -> bool
+
 val negb : bool -> bool
 
 type nat =
@@ -54,6 +58,8 @@ val add : nat -> nat -> nat
 
 val mul : nat -> nat -> nat
 
+val eqb : bool -> bool -> bool
+
 type positive =
 | XI of positive
 | XO of positive
@@ -85,13 +91,23 @@ module Pos :
 
   val add_carry : positive -> positive -> positive
 
+  val pred_double : positive -> positive
+
   val mul : positive -> positive -> positive
+
+  val iter : ('a1 -> 'a1) -> 'a1 -> positive -> 'a1
+
+  val size : positive -> positive
 
   val compare_cont : comparison -> positive -> positive -> comparison
 
   val compare : positive -> positive -> comparison
 
   val eqb : positive -> positive -> bool
+
+  val iter_op : ('a1 -> 'a1 -> 'a1) -> positive -> 'a1 -> 'a1
+
+  val to_nat : positive -> nat
 
   val of_succ_nat : nat -> positive
 
@@ -125,6 +141,8 @@ val map : ('a1 -> 'a2) -> 'a1 list -> 'a2 list
 
 val flat_map : ('a1 -> 'a2 list) -> 'a1 list -> 'a2 list
 
+val fold_left : ('a1 -> 'a2 -> 'a1) -> 'a2 list -> 'a1 -> 'a1
+
 val fold_right : ('a2 -> 'a1 -> 'a1) -> 'a1 -> 'a2 list -> 'a1
 
 val existsb : ('a1 -> bool) -> 'a1 list -> bool
@@ -135,15 +153,51 @@ val filter : ('a1 -> bool) -> 'a1 list -> 'a1 list
 
 val find : ('a1 -> bool) -> 'a1 list -> 'a1 option
 
+val combine : 'a1 list -> 'a2 list -> ('a1 * 'a2) list
+
+val firstn : nat -> 'a1 list -> 'a1 list
+
+val skipn : nat -> 'a1 list -> 'a1 list
+
+val repeat : 'a1 -> nat -> 'a1 list
+
+val list_sum : nat list -> nat
+
 module Z :
  sig
+  val double : z -> z
+
+  val succ_double : z -> z
+
+  val pred_double : z -> z
+
+  val pos_sub : positive -> positive -> z
+
+  val add : z -> z -> z
+
   val opp : z -> z
 
+  val sub : z -> z -> z
+
+  val mul : z -> z -> z
+
+  val pow_pos : z -> positive -> z
+
+  val pow : z -> z -> z
+
   val compare : z -> z -> comparison
+
+  val leb : z -> z -> bool
 
   val ltb : z -> z -> bool
 
   val eqb : z -> z -> bool
+
+  val max : z -> z -> z
+
+  val min : z -> z -> z
+
+  val to_nat : z -> nat
 
   val of_nat : nat -> z
 
@@ -154,6 +208,18 @@ module Z :
   val of_int : signed_int -> z
 
   val to_int : z -> signed_int
+
+  val pos_div_eucl : positive -> z -> z * z
+
+  val div_eucl : z -> z -> z * z
+
+  val div : z -> z -> z
+
+  val modulo : z -> z -> z
+
+  val even : z -> bool
+
+  val log2 : z -> z
  end
 
 val eqb0 : char list -> char list -> bool
@@ -451,9 +517,15 @@ type ctc = { c_name : char list; c_ast : node }
 
 type fm = { root : feature; ctcs : ctc list }
 
+val fsize : feature -> nat
+
+val subfeatures : feature -> feature list
+
 val subrelations : feature -> relation list
 
 val children : feature -> feature list
+
+val names : feature -> char list list
 
 val fld : node option -> node result
 
@@ -597,6 +669,84 @@ val get_excludes_constraints : fm -> nat list result
 
 val get_requires_constraints : fm -> nat list result
 
+val eff_max : z -> nat -> z
+
+val card_okb : z -> z -> nat -> z -> bool
+
+val none_selected : (char list -> bool) -> feature -> bool
+
+val count_sel : (char list -> bool) -> feature list -> z
+
+val sem : (char list -> bool) -> feature -> bool
+
+val eval : (char list -> bool) -> node -> bool option
+
+val valid : fm -> (char list -> bool) -> bool
+
+val zeros : nat -> bool list
+
+val prod_app : 'a1 list list -> 'a1 list list -> 'a1 list list
+
+val confs : feature -> bool list list
+
+val selected_names : feature -> bool list -> char list list
+
+val sigma_of : char list list -> char list -> bool
+
+val all_subsets : char list list -> char list list list
+
+val valid_selections : fm -> char list list list
+
+val div_rne : z -> z -> z
+
+val fdiv : z -> z -> z * z
+
+val scale_round : (z * z) -> z -> z
+
+val pyround_div : z -> z -> z -> z
+
+val zprod : z list -> z
+
+val zsum : z list -> z
+
+val poly_step : z list -> z -> z list
+
+val poly : z list -> z list
+
+val slice : z list -> z -> z -> z list
+
+val estimate : feature -> z
+
+val forces_all : relation -> bool
+
+val core_features : feature -> feature list
+
+val child_is_mandatory : feature -> feature -> bool
+
+val closure : feature -> char list list
+
+val starters : feature -> feature list
+
+val atomic_sets : fm -> char list list list
+
+val count_leafs : fm -> z
+
+val leaf_features : fm -> feature list
+
+val with_ancestors : feature -> feature list -> (feature * feature list) list
+
+val ancestors_table : fm -> (feature * feature list) list
+
+val max_depth_tree : fm -> z
+
+val branch_counts : fm -> z * z
+
+val average_branching_factor : fm -> z
+
+val variants : feature -> feature list
+
+val variation_points : fm -> (feature * feature list) list
+
 val e_aval : aval -> sexp
 
 val d_aval : sexp -> aval option
@@ -646,6 +796,10 @@ val op_queries : fm -> sexp
 val e_rbool : bool result -> sexp
 
 val op_ctcq : node -> sexp
+
+val op_ops : fm -> sexp
+
+val op_sem : fm -> sexp
 
 val bad : char list -> sexp
 
